@@ -128,6 +128,8 @@ fn main() {
         "c01" => props::recvfm::run(seed, n, &mut out, false),
         "c02" => props::recvfm::run(seed, n, &mut out, true),
         "c09" => props::recvfm::run_enums(seed, n, &mut out),
+        "c10" => props::derive::run_c10(seed, n, &mut out),
+        "c06" => props::derive::run_c06(seed, n, &mut out),
         "c17" => props::recvfm::run_suggest(seed, n, &mut out),
         "c13" => props::fm::run_c13(seed, n, &mut out),
         "c14" => props::fm::run_c14(seed, n, &mut out),
